@@ -17,7 +17,8 @@ Theorem C17_source_facts :
   given_set_for_configured_values = true /\ save_deferred_while_writes_pending = true /\
   init_saves_after_loading = true /\ callback_exceptions_swallowed = true /\
   array_import_checks_kind_and_length = true /\ tuple_import_checks_kind_and_length = true /\
-  struct_import_admits_missing_optional = true /\ scaled_import_integers_only = true /\
+  struct_import_admits_missing_optional = true /\ struct_export_admits_missing_optional = true /\
+  scaled_import_integers_only = true /\
   blob_import_strict_base64 = true.
 Proof. repeat split; reflexivity. Qed.
 
